@@ -1105,7 +1105,7 @@ func (p *vfC11nProxy) pumpDown(sy *vfC11nSync, fault vfC11nFault, up, down net.C
 				n = fault.ChunkMax
 			}
 			cut := false
-			if budget >= 0 && int64(n) >= budget {
+			if budget >= 0 && int64(n) > budget { // strictly more: a chunk that ends exactly at the cut position is delivered whole, the cut falls before the next byte
 				n = int(budget)
 				cut = true
 			}
